@@ -7,6 +7,7 @@ import (
 	"math/rand"
 	"os"
 	"reflect"
+	"regexp"
 	"sort"
 	"strings"
 
@@ -27,6 +28,8 @@ import (
 // resolveCode entries are compared with package reflect's.
 
 func init() { register("C20", runC20) }
+
+var c20PlainName = regexp.MustCompile(`^[A-Za-z_][A-Za-z0-9_]*$`)
 
 // ---- the hand-written zoo ------------------------------------------------------------------------
 
@@ -1233,6 +1236,39 @@ func runC20(e *Env) error {
 		// C. after
 		if !r.Full() && !sweep("after") {
 			break
+		}
+		// D. ONE render that reads attributes and then looks up more distinct names than the cache holds before its
+		// context is released; afterwards the same attributes are read again
+		for k := 0; k < 4 && !r.Full(); k++ {
+			o := zoo[e.Rng.Intn(len(zoo))]
+			if o.rt == nil {
+				continue
+			}
+			var sb strings.Builder
+			used := 0
+			for _, n := range namesOf(o) {
+				if c20PlainName.MatchString(n) && used < 6 {
+					sb.WriteString("{{ x." + n + " }}{{ x." + n + " }}")
+					used++
+				}
+			}
+			for i := 0; i < 1150; i++ {
+				fmt.Fprintf(&sb, "{{ x.ZzFlood%dx%dx%d }}", b, k, i)
+			}
+			src := sb.String()
+			guarded(func() (string, error) {
+				eng := twig.New()
+				if err := eng.RegisterString("flood", src); err != nil {
+					return "", err
+				}
+				return eng.Render("flood", map[string]interface{}{"x": o.val})
+			})
+			r.Hit("flood-inside-one-render")
+			for _, n := range namesOf(o) {
+				if !c.check(o, n, false, "after-render-flood") || !c.check(o, n, true, "after-render-flood") {
+					break
+				}
+			}
 		}
 		// model replay of this batch's history, with a random eviction oracle
 		oracles := []map[string]any{nil, {"kind": "oldest", "k": 100}, {"kind": "newest", "k": 1 + e.Rng.Intn(200)},
